@@ -27,6 +27,11 @@ pub fn modify_contract(
         return Err(ContractError::Unauthorized);
     }
 
+    // return error if funds sent: nothing is escrowed by a configuration change
+    if !info.funds.is_empty() {
+        return Err(ContractError::ModifyWithFunds);
+    }
+
     let contains_ask = !ASKS_V1.is_empty(deps.storage);
     check_required_attributes(
         contains_ask.to_owned(),
